@@ -30,7 +30,17 @@ class Reach:
         self.skip = os.path.join(self.pkg, "third_party") + os.sep
         self.lines: set = set()
         self.branches: dict = {}     # (file, firstlineno, offset) -> [set(dest), count, line]
+        self._lines: dict = {}
         self.on = False
+
+    def _line_of(self, code, off) -> int:
+        table = self._lines.get(code)
+        if table is None:
+            table = self._lines[code] = [(s_, e_, ln) for (s_, e_, ln) in code.co_lines() if ln is not None]
+        for s_, e_, ln in table:
+            if s_ <= off < e_:
+                return ln
+        return code.co_firstlineno
 
     def _mine(self, code) -> bool:
         fn = code.co_filename
@@ -57,7 +67,7 @@ class Reach:
             key = (code.co_filename, code.co_firstlineno, off)
             rec = me.branches.get(key)
             if rec is None:
-                rec = me.branches[key] = [set(), 0]
+                rec = me.branches[key] = [set(), 0, me._line_of(code, off)]
             rec[0].add(dest)
             rec[1] += 1
             if len(rec[0]) >= 2 or rec[1] >= BRANCH_CAP:
@@ -86,8 +96,8 @@ class Reach:
         for fn, ln in self.lines:
             lines[fn[len(self.pkg):]].append(ln)
         br = defaultdict(list)
-        for (fn, first, off), (dests, n) in self.branches.items():
-            br[fn[len(self.pkg):]].append([first, off, len(dests)])
+        for (fn, first, off), (dests, n, line) in self.branches.items():
+            br[fn[len(self.pkg):]].append([first, off, len(dests), line])
         return {"lines": {k: sorted(v) for k, v in lines.items()}, "branches": {k: sorted(v) for k, v in br.items()}}
 
 
@@ -124,14 +134,17 @@ def summarize(repo_root: str, shard_reaches: list, anchor_files: list) -> dict:
     reached = defaultdict(set)
     both = defaultdict(set)
     seen_sites = defaultdict(set)
+    site_line = {}
     for r in shard_reaches:
         if not r:
             continue
         for f, ls in r.get("lines", {}).items():
             reached[f].update(ls)
         for f, sites in r.get("branches", {}).items():
-            for first, off, n in sites:
+            for first, off, n, *rest in sites:
                 seen_sites[f].add((first, off))
+                if rest:
+                    site_line[(f, first, off)] = rest[0]
                 if n >= 2:
                     both[f].add((first, off))
     files = {}
@@ -150,6 +163,8 @@ def summarize(repo_root: str, shard_reaches: list, anchor_files: list) -> dict:
         files[rel] = {
             "function_lines": len(all_lines), "reached": len(got),
             "branch_sites_seen": len(seen_sites.get(rel, ())), "branch_sites_both_directions": len(both.get(rel, ())),
+            "lines_with_a_branch_taken_one_way_only": sorted({site_line[(rel, a, b)] for (a, b) in seen_sites.get(rel, set()) - both.get(rel, set())
+                                                              if (rel, a, b) in site_line})[:80],
             "functions_never_entered": never[:40],
             "unreached_lines_in_entered_functions": dict(sorted(partial.items())[:40]),
         }
